@@ -57,14 +57,13 @@ pub fn flow_recv(method: &Method, v10: bool, extra: &[(&str, &str)]) -> Result<F
     }
 }
 
-/// POST with `Expect: 100-continue` whose interim 100 is read while awaiting it; the (empty) body is then sent.
+/// POST with `Expect: 100-continue` whose interim 100 is read while awaiting it; the (empty, chunked) body is then sent.
 pub fn flow_recv_saw_100(v10: bool, interim: &[u8]) -> Result<Flow<(), RecvResponse>, String> {
     let req = Request::builder()
         .method(Method::POST)
         .uri("http://h.test/p")
         .version(if v10 { Version::HTTP_10 } else { Version::HTTP_11 })
         .header("expect", "100-continue")
-        .header("content-length", "0")
         .body(())
         .map_err(|e| e.to_string())?;
     let mut f = Flow::new(req).map_err(|e| format!("Flow::new: {:?}", e))?.proceed();
